@@ -73,7 +73,10 @@ def run (j : Json) : R Json := do
                ("bound_pressure_face", matJson (nf, nf) (bpFaceT g)),
                ("vector_source", matJson (inferred vs) vs),
                ("bound_pressure_vector_source", matJson (inferred bvs) bvs),
-               ("degenerate", Json.bool (degenerate g))])
+               ("degenerate", Json.bool (degenerate g)),
+               -- the decidable hypotheses of the grid-level theorems, evaluated on the real grid
+               ("wellFormed", Json.bool (wellFormedB g)), ("bndOK", Json.bool (bndOK g)),
+               ("cartLike", Json.bool (cartLike g)), ("korthGrid", Json.bool (korthGrid g (g.perm 0)))])
   | _ => throw s!"unknown op {op}"
 
 def main : IO Unit := runPure run
